@@ -261,7 +261,7 @@ fn run<P: Payload>(args: &[String], prop: &str, seed: u64, build: &str, prof: Pr
     }
     // hang supervisor: a single case normally takes well under a second
     {
-        let limit: u64 = std::env::var("ITV_HANG_SECS").ok().and_then(|s| s.parse().ok()).unwrap_or(60);
+        let limit: u64 = std::env::var("ITV_HANG_SECS").ok().and_then(|s| s.parse().ok()).unwrap_or(300);
         let (prop_s, build_s) = (prop.to_string(), build.to_string());
         std::thread::spawn(move || loop {
             std::thread::sleep(std::time::Duration::from_millis(1000));
@@ -435,12 +435,12 @@ fn run<P: Payload>(args: &[String], prop: &str, seed: u64, build: &str, prof: Pr
         "evaluations": total.evals, "distinct_nontrivial": nt,
         "cases": total.cases, "steps": total.steps, "skipped_ops": total.skipped, "excluded_by_construction": total.excluded,
         "engines": engines, "classes": classes, "features": total.feat, "max_live_hist": total.live_hist, "max_depth_hist": total.depth_hist,
-        "samples": total.samples, "other_property_failures": total.other_prop_failures,
+        "samples": total.samples, "other_property_failures": total.other_prop_failures, "slowest_case_ms": total.slowest_case_ms,
         "generator_health": if zero_classes.is_empty() { "ok".to_string() } else { format!("degraded: classes never generated: {:?}", zero_classes) },
         "violation": viol_json, "wall_s": t0.elapsed().as_secs_f64(),
     });
     std::fs::write(&out_path, serde_json::to_string_pretty(&partial).unwrap()).expect("write partial");
-    println!("itv {prop} {tier} {build}: {} evaluations, {} distinct non-trivial, {} random cases, {:.1}s", total.evals, nt, rnd_cases, t0.elapsed().as_secs_f64());
+    println!("itv {prop} {tier} {build}: {} evaluations, {} distinct non-trivial, {} random cases, slowest case {} ms, {:.1}s", total.evals, nt, rnd_cases, total.slowest_case_ms, t0.elapsed().as_secs_f64());
     code
 }
 
